@@ -9,14 +9,15 @@ from spec import nbhd
 
 BASES = {
  # two links on s1.R (fan-out in one collection), containment, path over a link
- "gfa1": ["S\ts1\t*", "S\ts2\t*", "S\ts3\t*",
+ # (the first line arrives before the segments it names: placeholder substitution happens while the base is built)
+ "gfa1": ["L\ts4\t-\ts2\t+\t7M", "S\ts1\t*", "S\ts2\t*", "S\ts3\t*", "S\ts4\t*",
           "L\ts1\t+\ts2\t+\t2M", "L\ts1\t+\ts3\t-\t3M", "L\ts2\t+\ts3\t+\t1M\tID:Z:l3",
           "C\ts2\t+\ts3\t+\t0\t*", "P\tp1\ts1+,s2+\t2M", "P\tp2\ts3+,s1-\t3M"],
  # self link, hairpin (same end twice), parallel links
  "gfa1b": ["S\ts1\t*", "S\ts2\t*", "S\ts3\t*",
-           "L\ts1\t+\ts1\t+\t1M", "L\ts2\t+\ts2\t-\t2M", "L\ts1\t+\ts2\t+\t3M", "L\ts1\t+\ts2\t+\t4M",
+           "L\ts1\t+\ts1\t+\t1M", "L\ts2\t+\ts3\t+\t5M", "L\ts2\t+\ts2\t-\t2M", "L\ts1\t+\ts2\t+\t3M", "L\ts1\t+\ts2\t+\t4M",
            "C\ts1\t+\ts3\t-\t1\t*", "P\tp1\ts1+,s1+,s2+\t1M,4M"],
- "gfa2": ["S\ts1\t10\t*", "S\ts2\t10\t*", "S\ts3\t10\t*",
+ "gfa2": ["E\te5\ts4-\ts2+\t0\t3\t0\t3\t*", "U\tu5\ts4 e5", "S\ts1\t10\t*", "S\ts2\t10\t*", "S\ts3\t10\t*", "S\ts4\t10\t*",
           "E\te1\ts1+\ts2+\t5\t10$\t0\t5\t*", "E\te2\ts1+\ts3-\t5\t10$\t5\t10$\t*",
           "E\te3\ts2+\ts3+\t2\t6\t3\t7\t*",
           "G\tg1\ts2+\ts3+\t5\t*", "F\ts1\tr1+\t0\t5\t0\t5\t*",
@@ -30,27 +31,29 @@ BASES = {
 }
 
 NAMES = {
- "gfa1": ["s1", "s2", "s3", "p1", "p2", "l3", "zz"],
+ "gfa1": ["s1", "s2", "s3", "s4", "p1", "p2", "l3", "zz"],
  "gfa1b": ["s1", "s2", "s3", "p1", "zz"],
- "gfa2": ["s1", "s2", "s3", "e1", "e2", "e3", "g1", "o1", "u1", "u2", "zz"],
+ "gfa2": ["s1", "s2", "s3", "s4", "e1", "e2", "e3", "e5", "g1", "o1", "u1", "u2", "u5", "zz"],
  "gfa2b": ["s1", "s2", "s3", "e1", "e2", "g1", "g2", "o1", "o2", "u1", "zz"],
 }
 
 # lines that can be added: forward references, duplicates, complements, merges
 POOL = {
- "gfa1": ["S\ts4\t*", "L\ts4\t+\ts1\t-\t*", "L\ts3\t+\ts1\t-\t3M",      # complement of a stored link
-          "P\tp3\ts2+,s3+\t1M", "C\ts1\t-\ts4\t+\t2\t*", "S\ts1\t*", "P\tp1\ts2+,s3+\t*", "L\ts9\t+\ts1\t+\t*"],
+ "gfa1": ["S\ts6\t*", "L\ts6\t+\ts1\t-\t*", "L\ts3\t+\ts1\t-\t3M",      # complement of a stored link
+          "P\tp3\ts2+,s3+\t1M", "C\ts1\t-\ts6\t+\t2\t*", "S\ts1\t*", "P\tp1\ts2+,s3+\t*", "L\ts9\t+\ts1\t+\t*"],
  "gfa1b": ["S\ts4\t*", "L\ts1\t-\ts1\t-\t1M", "L\ts2\t+\ts2\t-\t2M", "L\ts2\t-\ts1\t-\t3M", "P\tp2\ts2+,s2-\t2M",
            "L\ts3\t+\ts3\t-\t*"],
- "gfa2": ["S\ts4\t10\t*", "E\te4\ts4+\ts1+\t5\t10$\t0\t5\t*", "U\tu1\ts3", "O\to2\to1- s9+",
-          "E\te1\ts1+\ts2+\t0\t1\t0\t1\t*", "G\tg2\ts2+\ts3+\t1\t*", "F\ts9\tr2+\t0\t1\t0\t1\t*", "U\tu3\tg1 s1"],
+ "gfa2": ["S\ts6\t10\t*", "E\te4\ts6+\ts1+\t5\t10$\t0\t5\t*", "U\tu1\ts3", "O\to2\to1- s9+",
+          "E\te1\ts1+\ts2+\t0\t1\t0\t1\t*", "G\tg2\ts2+\ts3+\t1\t*", "F\ts9\tr2+\t0\t1\t0\t1\t*", "U\tu3\tg1 s1",
+          "O\tu1\ts1+ s2+", "U\to1\ts2 s3", "G\ts6\ts1+\ts2+\t1\t*"],          # a path named like a set and vice versa: refused, not merged
  "gfa2b": ["S\ts4\t10\t*", "U\tu1\tg2", "U\tu2\tu1 g2", "O\to3\to2+", "G\tg1\ts1+\ts2+\t9\t*", "E\t*\ts3+\ts1-\t0\t2\t8\t10$\t*"],
 }
 
 # rename targets: fresh, in use by a segment, in use by another record type, placeholder, numeric
 def rename_targets(base):
   other = {"gfa1": "p1", "gfa1b": "p1", "gfa2": "e1", "gfa2b": "g1"}[base]
-  return ["new", "s2", other, "7"]
+  # ... an identifier that is only mentioned (placeholder of the pool's forward references), and the placeholder '*'
+  return ["new", "s2", other, "7", "s9", "*"]
 
 
 class Step:
@@ -63,6 +66,13 @@ def model_add(doc, text):
   refused (identifier in use)"""
   rt = record_type(text)
   ident = defined_id(text)
+  if rt in ("L", "C", "P", "E", "G", "F"):
+    # these records name *segments*: an identifier held by a line of another type cannot be one
+    from spec.textmodel import mentions
+    for m in mentions(text):
+      hit = doc.find(m)
+      if hit and record_type(hit[0]) != "S":
+        return False
   if rt == "L":
     f = fields(text)
     for l in doc.lines:
@@ -74,6 +84,12 @@ def model_add(doc, text):
       for cand in (lf[1:6], comp):
         if f[1:5] == cand[0:4] and (f[5] == cand[4] or f[5] == "*" or cand[4] == "*"):
           return "either"  # equal / placeholder-compatible link: stored once or refused (both accepted)
+  if ident is not None and rt != "S":
+    # an identifier that other lines use as a *segment* (its placeholder exists) cannot become a line of another type
+    from spec.textmodel import mentions as _m
+    for l in doc.lines:
+      if record_type(l) in ("L", "C", "P", "E", "G", "F") and ident in _m(l) and not doc.find(ident):
+        return False
   if ident is not None and ident in doc.ids():
     prev = doc.find(ident)[0]
     if rt in ("O", "U") and record_type(prev) == rt:
@@ -89,7 +105,14 @@ def model_add(doc, text):
   return True
 
 
+LAST = {"why": None}       # why the model calls the last step illegal: in_use | invalid | unknown | None
+
 def apply_step(g, doc, base, op, a, b):
+  LAST["why"] = None
+  r = _apply_step(g, doc, base, op, a, b)
+  return r
+
+def _apply_step(g, doc, base, op, a, b):
   """apply step to the real Gfa (traced) and to the model; returns
   (raised_error_or_None, legal_in_model, description)."""
   names = NAMES[base]
@@ -110,6 +133,7 @@ def apply_step(g, doc, base, op, a, b):
     desc = "add_line(%r)" % text
     trial = doc.copy()
     legal = model_add(trial, text)
+    if legal is False: LAST["why"] = "in_use"
     try:
       g.add_line(text)
     except gfapy.Error as e:
@@ -123,15 +147,33 @@ def apply_step(g, doc, base, op, a, b):
     new = vp.pick(tg, b % len(tg))
     desc = "rename(%r -> %r)" % (name, new)
     legal = name in doc.ids() and (new == name or new not in doc.ids())
+    if name not in doc.ids(): LAST["why"] = "unknown"
+    elif not legal: LAST["why"] = "in_use"
     line = g.line(name)
     if line is None:
+      LAST["why"] = "unknown"
       return gfapy.NotFoundError(name), False, desc
+    # renaming onto an identifier that is mentioned but not defined (a placeholder exists), or to '*':
+    # refusing and performing the rename are both acceptable; if it is performed the model follows
+    either = legal and (new == "*" or new in doc.undefined_mentions())
+    if new == "*" and record_type(doc.find(name)[0]) in ("S", "P"):
+      either, legal = True, True          # '*' is not an identifier of S/P lines: refusal expected, acceptance tolerated
+      LAST["why"] = "invalid"
     try:
       line.name = new
     except gfapy.Error as e:
-      return e, legal, desc
+      return e, (False if either else legal), desc
     if legal:
-      doc.rename(name, new)
+      if new == "*":
+        t = doc.find(name)[0]
+        if record_type(t) in ("S", "P"):
+          return None, None, desc         # a segment/path literally named '*' (grammatical in GFA2): outside the claim
+        if name in [m for l in doc.lines for m in __import__("spec.textmodel", fromlist=["mentions"]).mentions(l)]:
+          return None, None, desc         # anonymising a line that others mention: no text denotes this (outside the claim)
+        f = fields(t); f[1] = "*"
+        doc.lines[doc.lines.index(t)] = "\t".join(f)
+      else:
+        doc.rename(name, new)
     return None, legal, desc
   if op == 3:                      # disconnect an anonymous/any line by instance
     with NoTracing():
@@ -206,10 +248,10 @@ def step_table(base, ops):
   for op in ops:
     if op == 0: out += [(0, a, 0) for a in range(nn)]
     elif op == 1: out += [(1, a, 0) for a in range(npool)]
-    elif op == 2: out += [(2, a, b) for a in range(nn - 1) for b in range(nt)]
+    elif op == 2: out += [(2, a, b) for a in range(nn - 1) for b in range(6)]
     elif op == 3: out += [(3, a, 0) for a in range(8)]
     elif op == 4: out += [(4, a, b) for a in (0, 3) for b in range(3)]
-    elif op == 5: out += [(2, a, 0) for a in range(nn - 1)]        # rename to a fresh name only
+    elif op == 5: out += [(2, a, b) for a in range(nn - 1) for b in (0, 4)]   # rename to a fresh name / onto a placeholder's id
   return out
 
 
@@ -234,6 +276,8 @@ def run(base, table, codes, oracle, tag):
         before = full_observation(g)
     err, legal, desc = apply_step(g, doc, base, op, a, b)
     vp.reached(tag, base, desc, type(err).__name__ if err else None)
+    if legal is None:
+      return True                           # the step left the claimed domain (see apply_step)
     with NoTracing():
       if oracle == "C02":
         if invariant(g): return False
@@ -271,7 +315,8 @@ def c09_oracle(g, doc, base, err, legal, op):
   names = [str(n) for n in g.names]
   if len(names) != len(set(names)): return False
   # lookup returns exactly the line carrying the identifier, nothing otherwise
-  pool = set(NAMES[base]) | set(rename_targets(base)) | set(names) | {"s4", "s9", "nope"}
+  pool = (set(NAMES[base]) | set(rename_targets(base)) | set(names) | {"s4", "s6", "s9", "nope"}) - {"*"}
+  if g.line("*") is not None: return False          # the placeholder is nobody's identifier
   for n in pool:
     l = g.line(n)
     carriers = [x for x in g.lines if x.record_type not in ("H", "#", "F") and
@@ -292,8 +337,11 @@ def c09_oracle(g, doc, base, err, legal, op):
   # an identifier in use refuses additions/renames (except the documented merges)
   if op in (1, 2) and err is None and not legal: return False
   if op in (1, 2) and err is not None and legal and not isinstance(err, gfapy.NotFoundError): return False
-  if op in (1, 2) and err is not None and not legal and not isinstance(err, (gfapy.NotUniqueError, gfapy.NotFoundError)):
-    return False
+  if op in (1, 2) and err is not None and not legal:
+    # an identifier in use is refused with NotUniqueError; an unknown line with NotFoundError; an invalid
+    # identifier with a format/value error
+    want = {"in_use": gfapy.NotUniqueError, "unknown": gfapy.NotFoundError}.get(LAST["why"], gfapy.Error)
+    if not isinstance(err, want): return False
   # a successful rename / add leaves exactly the text the model predicts
   if err is None and legal and not doc.undefined_mentions():
     if vp.kf_active("KF-C05-orphan-placeholder") and orphan_placeholders(g):
